@@ -416,17 +416,38 @@ Definition mode_dot_e_z_before_92eb2a5 (T M : tensor F) (z : Z) (tr : bool) : re
 (* state of the equation-building loop of einsum multi_mode_dot *)
 Record mmd_state := mkS { s_ins : list (list nat); s_ops : list (tensor F); s_out : list nat;
                           s_counter : nat; s_dec : nat }.
+(* /repo a6246d0: every operand is contracted with the CURRENT label at position mode - decrement of the result labels (the label a
+   previous operand on the same mode introduced), as the core backend contracts the running result; an index outside the current
+   labels raises IndexError.  (nat modes: faithful when decrement <= mode, e.g. modes=None; explicit modes go through mmd_e_loop_z) *)
 Fixpoint mmd_e_loop (l : list triple) (skip : option nat) (tr : bool) (order : nat) (st : mmd_state) : res mmd_state :=
   match l with
   | [] => Ok st
   | (M, mode, i) :: r =>
       if is_skip skip i then mmd_e_loop r skip tr order st
-      else if negb (mode <? order) then Err        (* tensor_modes[mode] raises IndexError *)
+      else let q := mode - s_dec st in
+      if negb (q <? length (s_out st)) then Err
       else match ndim M with
       | 1 => mmd_e_loop r skip tr order
+               (mkS (s_ins st ++ [[nth q (s_out st) 0]]) (s_ops st ++ [if tr then conj_t M else M])
+                    (remove_nth q (s_out st)) (s_counter st) (S (s_dec st)))
+      | 2 => mmd_e_loop r skip tr order
+               (mkS (s_ins st ++ [[s_counter st; nth q (s_out st) 0]]) (s_ops st ++ [if tr then conj_t (transpose_rev M) else M])
+                    (set_nth q (s_counter st) (s_out st)) (S (s_counter st)) (s_dec st))
+      | _ => Err
+      end
+  end.
+(* the loop before a6246d0 (operand label = the tensor's ORIGINAL label of the mode), kept for the regression Examples *)
+Fixpoint mmd_e_loop_before_a6246d0 (l : list triple) (skip : option nat) (tr : bool) (order : nat) (st : mmd_state) : res mmd_state :=
+  match l with
+  | [] => Ok st
+  | (M, mode, i) :: r =>
+      if is_skip skip i then mmd_e_loop_before_a6246d0 r skip tr order st
+      else if negb (mode <? order) then Err        (* tensor_modes[mode] raises IndexError *)
+      else match ndim M with
+      | 1 => mmd_e_loop_before_a6246d0 r skip tr order
                (mkS (s_ins st ++ [[mode]]) (s_ops st ++ [if tr then conj_t M else M])
                     (remove_nth (mode - s_dec st) (s_out st)) (s_counter st) (S (s_dec st)))
-      | 2 => mmd_e_loop r skip tr order
+      | 2 => mmd_e_loop_before_a6246d0 r skip tr order
                (mkS (s_ins st ++ [[s_counter st; mode]]) (s_ops st ++ [if tr then conj_t (transpose_rev M) else M])
                     (set_nth (mode - s_dec st) (s_counter st) (s_out st)) (S (s_counter st)) (s_dec st))
       | _ => Err
@@ -465,19 +486,29 @@ Definition bcast_operand (ins : list (list nat)) (ts : list (tensor F)) (ls : li
 Definition einsum_np (ins : list (list nat)) (out : list nat) (ts : list (tensor F)) : res (tensor F) :=
   if einsum_bcast_ok ins ts
   then Ok (einsum ins out (map (fun p => bcast_operand ins ts (fst p) (snd p)) (combine ins ts))) else Err.
+(* the size check of 8b25fc6 / a6246d0 (contracted dimension of the operand = CURRENT size at its position) is, for the labels the
+   loop assigns, exactly "all axes with the same label have the same size": einsum_sizes_ok on the final equation *)
 Definition multi_mode_dot_e (T : tensor F) (Ms : list (tensor F)) (modes : option (list nat))
            (skip : option nat) (tr : bool) : res (tensor F) :=
   let order := ndim T in
-  if mmd_e_fits (shape T) tr skip (sort_by_mode (zip3 Ms modes)) then
   rbind (mmd_e_loop (sort_by_mode (zip3 Ms modes)) skip tr order
+                    (mkS [] [] (seq 0 order) (order + 1) 0)) (fun st =>
+  if einsum_sizes_ok (seq 0 order :: s_ins st) (T :: s_ops st)
+  then Ok (einsum (seq 0 order :: s_ins st) (s_out st) (T :: s_ops st)) else Err).
+(* the routine between 8b25fc6 and a6246d0 (original labels, sizes checked against the ORIGINAL tensor) and before 8b25fc6 (no
+   check: np.einsum broadcast a size-1 mismatch), kept for the regression Examples *)
+Definition multi_mode_dot_e_before_a6246d0 (T : tensor F) (Ms : list (tensor F)) (modes : option (list nat))
+           (skip : option nat) (tr : bool) : res (tensor F) :=
+  let order := ndim T in
+  if mmd_e_fits (shape T) tr skip (sort_by_mode (zip3 Ms modes)) then
+  rbind (mmd_e_loop_before_a6246d0 (sort_by_mode (zip3 Ms modes)) skip tr order
                     (mkS [] [] (seq 0 order) (order + 1) 0)) (fun st =>
   einsum_np (seq 0 order :: s_ins st) (s_out st) (T :: s_ops st))
   else Err.
-(* the routine before 8b25fc6 (no check: np.einsum broadcast a size-1 mismatch), kept for the regression Example *)
 Definition multi_mode_dot_e_before_8b25fc6 (T : tensor F) (Ms : list (tensor F)) (modes : option (list nat))
            (skip : option nat) (tr : bool) : res (tensor F) :=
   let order := ndim T in
-  rbind (mmd_e_loop (sort_by_mode (zip3 Ms modes)) skip tr order
+  rbind (mmd_e_loop_before_a6246d0 (sort_by_mode (zip3 Ms modes)) skip tr order
                     (mkS [] [] (seq 0 order) (order + 1) 0)) (fun st =>
   einsum_np (seq 0 order :: s_ins st) (s_out st) (T :: s_ops st)).
 
@@ -508,19 +539,39 @@ Definition multi_mode_dot_z (T : tensor F) (Ms : list (tensor F)) (ms : list Z) 
   mmd_loop_z (sort_by_mode_z (zip3z Ms (map (norm_mode (ndim T)) ms))) skip tr 0%Z T.
 Definition multi_mode_dot_z_before_92eb2a5 (T : tensor F) (Ms : list (tensor F)) (ms : list Z) (skip : option nat) (tr : bool) : res (tensor F) :=
   mmd_loop_z (sort_by_mode_z (zip3z Ms ms)) skip tr 0%Z T.
-(* einsum backend: tensor_modes[mode] picks the operand's label; result_modes.pop(mode - decrement) / result_modes[mode - decrement] = new label *)
-Fixpoint mmd_e_loop_z (l : list ztriple) (skip : option nat) (tr : bool) (order : nat) (st : mmd_state) : res mmd_state :=
+(* einsum backend (a6246d0): the operand's label is the CURRENT label at position mode - decrement (Python list indexing) *)
+Fixpoint mmd_e_loop_z (l : list ztriple) (skip : option nat) (tr : bool) (st : mmd_state) : res mmd_state :=
   match l with
   | [] => Ok st
   | (M, z, i) :: r =>
-      if is_skip skip i then mmd_e_loop_z r skip tr order st
+      if is_skip skip i then mmd_e_loop_z r skip tr st
+      else match py_index (length (s_out st)) (z - Z.of_nat (s_dec st))%Z with
+      | Some q =>
+          match ndim M with
+          | 1 => mmd_e_loop_z r skip tr
+                   (mkS (s_ins st ++ [[nth q (s_out st) 0]]) (s_ops st ++ [if tr then conj_t M else M])
+                        (remove_nth q (s_out st)) (s_counter st) (S (s_dec st)))
+          | 2 => mmd_e_loop_z r skip tr
+                   (mkS (s_ins st ++ [[s_counter st; nth q (s_out st) 0]]) (s_ops st ++ [if tr then conj_t (transpose_rev M) else M])
+                        (set_nth q (s_counter st) (s_out st)) (S (s_counter st)) (s_dec st))
+          | _ => Err
+          end
+      | None => Err
+      end
+  end.
+(* the loop before a6246d0: tensor_modes[mode] picked the operand's label *)
+Fixpoint mmd_e_loop_z_before_a6246d0 (l : list ztriple) (skip : option nat) (tr : bool) (order : nat) (st : mmd_state) : res mmd_state :=
+  match l with
+  | [] => Ok st
+  | (M, z, i) :: r =>
+      if is_skip skip i then mmd_e_loop_z_before_a6246d0 r skip tr order st
       else match py_index order z, py_index (length (s_out st)) (z - Z.of_nat (s_dec st))%Z with
       | Some k, Some q =>
           match ndim M with
-          | 1 => mmd_e_loop_z r skip tr order
+          | 1 => mmd_e_loop_z_before_a6246d0 r skip tr order
                    (mkS (s_ins st ++ [[k]]) (s_ops st ++ [if tr then conj_t M else M])
                         (remove_nth q (s_out st)) (s_counter st) (S (s_dec st)))
-          | 2 => mmd_e_loop_z r skip tr order
+          | 2 => mmd_e_loop_z_before_a6246d0 r skip tr order
                    (mkS (s_ins st ++ [[s_counter st; k]]) (s_ops st ++ [if tr then conj_t (transpose_rev M) else M])
                         (set_nth q (s_counter st) (s_out st)) (S (s_counter st)) (s_dec st))
           | _ => Err
@@ -531,15 +582,17 @@ Fixpoint mmd_e_loop_z (l : list ztriple) (skip : option nat) (tr : bool) (order 
 Definition mmd_e_fits_z (sT : list nat) (tr : bool) (skip : option nat) (l : list ztriple) : bool :=
   forallb (fun x => is_skip skip (snd x) ||
                     match py_index (length sT) (zt_mode x) with Some k => fit_one sT tr (fst (fst x)) k | None => true end) l.
-Definition multi_mode_dot_e_z_gen (norm : bool) (T : tensor F) (Ms : list (tensor F)) (ms : list Z) (skip : option nat) (tr : bool) : res (tensor F) :=
+Definition multi_mode_dot_e_z (T : tensor F) (Ms : list (tensor F)) (ms : list Z) (skip : option nat) (tr : bool) : res (tensor F) :=
   let order := ndim T in
-  let l := sort_by_mode_z (zip3z Ms (if norm then map (norm_mode order) ms else ms)) in
-  if negb norm || mmd_e_fits_z (shape T) tr skip l then     (* the check of 8b25fc6 came after the mode resolution of 92eb2a5 *)
-  rbind (mmd_e_loop_z l skip tr order (mkS [] [] (seq 0 order) (order + 1) 0)) (fun st =>
-  einsum_np (seq 0 order :: s_ins st) (s_out st) (T :: s_ops st))
-  else Err.
-Definition multi_mode_dot_e_z := multi_mode_dot_e_z_gen true.
-Definition multi_mode_dot_e_z_before_92eb2a5 := multi_mode_dot_e_z_gen false.
+  rbind (mmd_e_loop_z (sort_by_mode_z (zip3z Ms (map (norm_mode order) ms))) skip tr (mkS [] [] (seq 0 order) (order + 1) 0)) (fun st =>
+  if einsum_sizes_ok (seq 0 order :: s_ins st) (T :: s_ops st)
+  then Ok (einsum (seq 0 order :: s_ins st) (s_out st) (T :: s_ops st)) else Err).
+(* before 92eb2a5: raw mode numbers, original labels, no size check *)
+Definition multi_mode_dot_e_z_before_92eb2a5 (T : tensor F) (Ms : list (tensor F)) (ms : list Z) (skip : option nat) (tr : bool) : res (tensor F) :=
+  let order := ndim T in
+  rbind (mmd_e_loop_z_before_a6246d0 (sort_by_mode_z (zip3z Ms ms)) skip tr order (mkS [] [] (seq 0 order) (order + 1) 0)) (fun st =>
+  einsum_np (seq 0 order :: s_ins st) (s_out st) (T :: s_ops st)).
+
 
 (* np.einsum operand checks: the weights need exactly one axis, of length R or 1 (broadcast); the mask one axis per matrix with
    the row counts (masks with broadcastable size-1 axes are outside the model: Err) *)
